@@ -67,9 +67,10 @@ def write_evidence(prop, tier, seed, code, summary, meta):
         "exit_code": code,
     }
     # keys required by the level
+    known_ids = set(k[1]["id"] for k in summary["known_hits"])
+    cov["known_finding_obligations"] = {"count": len(known_ids), "note": "obligations refuted on the recorded known findings: reported by KNOWN-FINDING lines, excluded from obligations/discharged"}
     if level == "proof":
-        cov["obligations"] = len(P)
-        cov["discharged"] = len(proved_P) + sum(1 for r in P if r["verdict"] == "refuted" and any(k[1] is r for k in summary["known_hits"]))
+        cov["obligations"] = len([r for r in P if r["id"] not in known_ids])
         cov["discharged"] = len(proved_P)
     else:
         cov["obligations"] = len(P) + len(B)
